@@ -304,13 +304,15 @@ def h_index(site):
         if site.owner == 'member::Members::choose_members':
             good = True
             for p, i, e in site.occurrences():
-                cs = q.conds_before(p, i)
+                cs = [q.cmp_norm(c) for c in q.conds_before(p, i)]
                 idx = e['args'][1]
-                g1 = any(c['expr'][0] == 'binop' and c['expr'][1] == 'Lt' and c['expr'][2] == idx and q.cond_truth(c) is True
-                         and c['expr'][3] == ('param', 0, 2) for c in cs)
-                g2 = any(c['expr'][0] == 'binop' and c['expr'][1] == 'Lt' and c['expr'][3] == ('param', 0, 2)
-                         and q.cond_truth(c) is False and c['expr'][2] != idx for c in cs)
-                good = good and g1 and g2
+                body = site.f.fn('member::Members::choose_members')
+                # `wanted`: the only usize parameter, wherever it stands; comparisons in either spelling
+                ws = [('param', 0, k) for k in range(1, body.argc + 1) if str(body.locals[k]) == 'usize']
+                wanted = ws[0] if len(ws) == 1 else None
+                g1 = any(n is not None and n == ('gt', wanted, idx) for n in cs)
+                g2 = any(n is not None and n[0] == 'ge' and n[2] == wanted and n[1] != idx for n in cs)
+                good = good and wanted is not None and g1 and g2
             return audited(site, key, good, 'index is no longer guarded by `replace_at < wanted` on the failing edge '
                                             'of `num_chosen < wanted`')
         if site.owner == 'Foca::send_message':
@@ -485,35 +487,79 @@ def h_assert(site):
                 break
         if allok:
             return ok(site, 'subtraction guarded by a dominating `value > 0`-style test on the same value on every path')
+    if kind.startswith('Overflow(Add)') and occ:
+        # x + 1 after a test establishing x < y for the same symbolic value (`while n < limit { ..; n += 1 }`): y is
+        # representable, so x + 1 <= y is too
+        allok = True
+        for p, i, e in occ:
+            a, c = e['ops']
+            if c[0] != 'const':
+                a, c = c, a
+            if not (c[0] == 'const' and c[2] == 1 and a[0] != 'const'):
+                allok = False
+                break
+            good = False
+            for cd in q.conds_before(p, i):
+                n = q.cmp_norm(cd)
+                if n is not None and n[0] == 'gt' and n[2] == a:
+                    good = True
+            if not good:
+                allok = False
+                break
+        if allok:
+            return ok(site, 'increment by one of a value that a preceding test on every path showed to be strictly below '
+                            'another value of its type')
     if kind == 'DivisionByZero' and occ:
         divisor = site.raw['desc'].rsplit('/', 1)[-1] if '/' in site.raw['desc'] else ''
         if divisor.isdigit() and int(divisor) != 0:
             return ok(site, 'division by a non-zero literal')
         # estimate_feed_capacity: the divisor must be exactly (max_packet_size - remaining) / 2, and the call site must
-        # guarantee max_packet_size - remaining >= 2
+        # guarantee max_packet_size - remaining >= 2.  Both operands may be read in place or handed in as parameters.
         key = (site.owner, 'assert', 'DivisionByZero')
-        if divisor != 'Div(saturating_sub(get(self.config.max_packet_size),<usize>),2)':
-            return bad(site, 'division whose divisor (%s) is not the audited (max_packet_size - remaining) / 2' % divisor)
-        good = False
+        good = site.owner == 'Foca::estimate_feed_capacity'
+        why = 'division whose divisor is not the audited (max_packet_size - remaining) / 2'
+        AB = None
+        for p, i, e in occ:
+            c = e.get('cond')
+            calls = {x['id']: x for x in p.calls()}
+            d = c[2] if c and c[0] == 'binop' and c[1] == 'Eq' and q.is_const(c[3], 0) else None
+            if not (d and d[0] == 'binop' and d[1] == 'Div' and q.is_const(d[3], 2) and d[2][0] == 'call' and
+                    calls[d[2][1]]['res'] == 'core::num::<impl usize>::saturating_sub'):
+                good = False
+                break
+            ab = tuple(calls[d[2][1]]['args'])
+            if AB is not None and ab != AB:
+                good = False
+            AB = ab
+        if not good or AB is None:
+            return bad(site, '%s (%s)' % (why, site.raw['desc'].rsplit('/', 1)[-1]))
+        is_mps = lambda v: v[0] == 'unop' and v[1] == 'NonZeroGet' and q.loads_self_field(v[2], 'config', 'max_packet_size')
         why = 'call site of estimate_feed_capacity is not dominated by put_u16 on the limited buffer'
-        if site.owner == 'Foca::estimate_feed_capacity':
-            callers = site.f.callers_of(lambda n: n == 'Foca::estimate_feed_capacity')
-            good = len(callers) == 1
-            for cb, bi, tt in callers:
-                for p in site.ctx.paths(site.f, cb, 'none'):
-                    for i, e in enumerate(p.events):
-                        if e['kind'] == 'call' and e['res'] == 'Foca::estimate_feed_capacity':
-                            arg = e['args'][1]
-                            calls = {c['id']: c for c in p.calls()}
-                            is_rem = arg[0] == 'call' and calls[arg[1]]['res'].endswith('BufMut>::remaining_mut')
-                            put = [c for c in p.events[:i] if c['kind'] == 'call' and c['decl'] == 'bytes::BufMut::put_u16'
-                                   and is_rem and buffer_id(c['args'][0]) == buffer_id(calls[arg[1]]['args'][0])]
-                            lim = [c for c in p.events[:i] if c['kind'] == 'call' and c['res'] == 'bytes::BufMut::limit'
-                                   and q.loads_self_field(c['args'][1], 'config', 'max_packet_size')]
-                            if not (is_rem and put and lim):
-                                good = False
-        return audited(site, key, good, why)
+        callers = site.f.callers_of(lambda n: n == 'Foca::estimate_feed_capacity')
+        good = len(callers) == 1
+        nsite = 0
+        for cb, bi, tt in callers:
+            for p in site.ctx.paths(site.f, cb, 'none'):
+                for i, e in enumerate(p.events):
+                    if e['kind'] == 'call' and e['res'] == 'Foca::estimate_feed_capacity':
+                        nsite += 1
+                        val = lambda v: e['args'][v[2] - 1] if (v[0] == 'param' and v[1] == 0) else v
+                        A, arg = val(AB[0]), val(AB[1])
+                        calls = {c['id']: c for c in p.calls()}
+                        is_rem = arg[0] == 'call' and arg[1] in calls and calls[arg[1]]['res'].endswith('BufMut>::remaining_mut')
+                        put = [c for c in p.events[:i] if c['kind'] == 'call' and c['decl'] == 'bytes::BufMut::put_u16'
+                               and is_rem and buffer_id(c['args'][0]) == buffer_id(calls[arg[1]]['args'][0])]
+                        lim = [c for c in p.events[:i] if c['kind'] == 'call' and c['res'] == 'bytes::BufMut::limit'
+                               and q.loads_self_field(c['args'][1], 'config', 'max_packet_size')]
+                        if not (is_mps(A) and is_rem and put and lim):
+                            good = False
+        return audited(site, key, good and nsite > 0, why)
     key = (site.owner, 'assert', site.raw['desc'])
+    if site.raw['desc'] == 'Overflow(Add):counter:usize,1' and key not in T.AUDITED_ASSERTS:
+        # (functions with an audited entry keep their specific argument)
+        return ok(site, 'a usize counter that starts at a constant and is only ever stepped by the constant 1 (checked '
+                        'from its definitions): it counts loop iterations / elements of an in-memory collection, and '
+                        'reaching usize::MAX takes 2^64 steps')
     if key in T.AUDITED_ASSERTS:
         extra, why = True, ''
         chk = ASSERT_SUBCHECKS.get(key)
@@ -522,8 +568,8 @@ def h_assert(site):
         if extra:
             return ok(site, 'audited: ' + T.AUDITED_ASSERTS[key])
         return bad(site, 'audited entry exists but its structural sub-condition no longer holds: ' + why)
-    for owner, pat, text in T.AUDITED_ASSERT_PATTERNS:
-        if owner == site.owner and pat.match(site.raw['desc']):
+    for owner, pat, text, *pred in T.AUDITED_ASSERT_PATTERNS:
+        if owner == site.owner and pat.match(site.raw['desc']) and (not pred or pred[0](site.raw['desc'])):
             return ok(site, 'audited: ' + text)
     return bad(site, 'arithmetic/bounds assert without guard or audited entry (key %s)' % (key,))
 
@@ -535,13 +581,8 @@ def sub_send_message_num_items(site):
         for e in p.calls():
             if e['res'] == 'member::Members::choose_active_members':
                 w = e['args'][1]
-                calls = {c['id']: c for c in p.calls()}
-                if w[0] == 'call' and calls[w[1]]['res'] == 'core::cmp::Ord::min':
-                    args = calls[w[1]]['args']
-                    if any(q.peel(a)[0] == 'const' and q.peel(a)[2] == 65535 for a in args):
-                        good = True
-                    else:
-                        return False, 'min() bound is not u16::MAX'
+                if q.bounded_by(p, w, 65535):
+                    good = True
                 else:
                     return False, 'number of members selected for a Feed is not capped with min(.., u16::MAX)'
     return good, 'no choose_active_members call found'
@@ -610,10 +651,13 @@ def p_add_or_replace_max_tx(site):
                 if e['res'] == 'broadcast::Broadcasts::add_or_replace' and e['tblock'] == bi:
                     n += 1
                     a = e['args'][3]
-                    inner = a
-                    while inner[0] == 'cast':
-                        inner = inner[2]
-                    if not (inner[0] == 'unop' and inner[1] == 'NonZeroGet'):
+
+                    def nonzero(v, _b):
+                        while v[0] == 'cast':
+                            v = v[2]
+                        return v[0] == 'unop' and v[1] == 'NonZeroGet'
+                    from . import common as _common
+                    if not _common.value_or_param_satisfies(site.ctx, site.f, cb, a, nonzero):
                         return False, 'add_or_replace called in %s with a max_tx that is not NonZero::get(..)' % cb.nname
     return n >= 5, 'fewer than 5 add_or_replace call occurrences'
 
@@ -1099,7 +1143,10 @@ def check(ctx):
                        'the tracing feature (its macro expansions call into the tracing crate)']
     rep.assumptions = ['user-supplied Codec/Runtime/BroadcastHandler/Identity/Rng do not panic (as the property states)',
                        'classification table of external callees (rules/c06_tables.py)',
-                       'audited table entries (rules/c06_tables.py), each with a written argument']
+                       'audited table entries (rules/c06_tables.py), each with a written argument',
+                       'a usize counter that starts at a constant and is only stepped by 1 does not reach usize::MAX '
+                       '(2^64 steps on the supported targets; on a 32-bit target the argument is that each step visits '
+                       'an element of an in-memory collection)']
     for cfgname in ctx.configs(quick=('base', 'wire'), thorough=('base', 'wire', 'nostd')):
         f = ctx.facts(cfgname)
         rep.cur_config = cfgname
